@@ -157,14 +157,24 @@ func fillValue(r *RNG, v reflect.Value, tag string, required bool) {
 			b[1] = 0x40
 		}
 		// KerberosFlags ::= BIT STRING (SIZE (32..MAX)): now and then more than 32 bits
+		bitLen := 0
 		switch r.Intn(6) {
 		case 0:
 			b = append(b, r.Bytes(1+r.Intn(2))...)
 			if b[len(b)-1] == 0 {
 				b[len(b)-1] = 0x80
 			}
+		case 1:
+			// ... that do not fill their last octet (33..39, 41..47 bits): the unused bits are zero and counted
+			b = append(b, r.Bytes(1+r.Intn(2))...)
+			u := 1 + r.Intn(7)
+			b[len(b)-1] = (b[len(b)-1] | 0x80) &^ byte(1<<uint(u)-1)
+			bitLen = 8*len(b) - u
 		}
-		v.Set(reflect.ValueOf(asn1.BitString{Bytes: b, BitLength: 8 * len(b)}))
+		if bitLen == 0 {
+			bitLen = 8 * len(b)
+		}
+		v.Set(reflect.ValueOf(asn1.BitString{Bytes: b, BitLength: bitLen}))
 		return
 	case t == tOID:
 		oids := []asn1.ObjectIdentifier{{1, 2, 840, 113554, 1, 2, 2}, {1, 2, 840, 48018, 1, 2, 2}, {1, 3, 6, 1, 5, 5, 2}, {1, 3, 6, 1, 4, 1, 311, 2, 2, 10}}
